@@ -47,6 +47,7 @@ type Engine struct {
 	needStrConcat, needBitFns, needDyn, needErr, needStrCmp, needSubstr, needStrOfBytes, needMapLen bool
 	havocAllSeen bool
 	needStrExt bool
+	sprintfFns map[string]*sprintfFn
 	preds map[string]*predDef
 	depPkgs map[string]*packages.Package
 	predDecls []string
